@@ -352,4 +352,40 @@ def chooseBackend (cfg : Cfg) (id : Str) : Backend :=
       | some b => b
       | none => cfg.localB
 
+/-! ### conn.go UserList: the LoginCluster detour (conn.go:544-557) and batchUpdateUsers (483-542)
+
+With `Login.LoginCluster` set to another cluster (and no bypass) a user list request never reaches
+`generated_UserList`: it is handed, unchanged, to `chooseBackend(LoginCluster)` (the local backend
+if that cluster has no proxy), and the returned users whose uuid starts with the LoginCluster id are
+cached locally through `conn.local.UserBatchUpdate` (only uuids matter here). -/
+
+def userListDetour (localId login : ClusterId) (o : Opts) : Bool :=
+  decide (login ≠ []) && decide (login ≠ localId) && !o.bypass
+
+/-- `strings.HasPrefix(user.UUID, id)` -/
+def hasPrefix (pre s : Str) : Bool := s.take pre.length == pre
+
+structure URun where
+  out : Outcome
+  /-- the list calls made: the generated path's log, or the single detour call -/
+  log : List (ClusterId × List (Opts × Resp))
+  /-- detour only: the one request/answer handed to chooseBackend(LoginCluster) -/
+  detour : Option (Opts × Resp)
+  /-- uuids passed to local.UserBatchUpdate (`none` = not called) and whether it failed -/
+  update : Option (List Uuid × Bool)
+deriving Repr
+
+def runUserList (cfg : Cfg) (login : ClusterId) (updateFails : Bool) (o : Opts) : URun :=
+  if userListDetour cfg.localId login o then
+    match chooseBackend cfg login o 0 with
+    | .error s => ⟨.err [s], [], some (o, .error s), none⟩
+    | .page items =>
+      let upd := dedup ((pageUuids items).filter (hasPrefix login))
+      if upd = [] then ⟨.ok items, [], some (o, .page items), none⟩
+      else if updateFails then ⟨.err [0], [], some (o, .page items), some (upd, true)⟩
+      else ⟨.ok items, [], some (o, .page items), some (upd, false)⟩
+  else
+    let r := run cfg o
+    ⟨r.out, r.log, none, none⟩
+
 end ArvVerif.C20
